@@ -6,6 +6,7 @@
 
 '''Classes for local RPC server and remote client TCP/SSL servers.'''
 
+import asyncio
 import codecs
 import itertools
 import json
@@ -150,6 +151,7 @@ class SessionManager:
         self._merkle_lookups = 0
         self._merkle_hits = 0
         self.notified_height = None
+        self._notify_lock = asyncio.Lock()
         self.hsub_results = None
         self._sslc = None
         # Event triggered when electrumx is listening for incoming requests.
@@ -845,6 +847,13 @@ class SessionManager:
 
     async def _notify_sessions(self, height, touched):
         '''Notify sessions about height changes and touched addresses.'''
+        # One notification at a time: the block processor and the mempool notify from different
+        # tasks, and a session must not send the status computed for the earlier notification
+        # after the one computed for the later notification
+        async with self._notify_lock:
+            await self._notify_sessions_locked(height, touched)
+
+    async def _notify_sessions_locked(self, height, touched):
         # A reorg can end at the height last notified: the tip, and the histories of the touched
         # hashXs, have changed all the same.
         height_changed = (height != self.notified_height
